@@ -273,3 +273,60 @@ PROPS['C03'] = dict(
           "next_blob_id are compared with the values before the close; non-trivial = a sweep over >=2 keys"),
     assumptions=['same-length corruption of an index body is outside the property damage list'],
 )
+
+
+def oracle_c05(res, i):
+    cmd = res['script'][i].split()
+    out = res['impl'][i]
+    if cmd[0] == 'flipsweep' and not out.startswith('sweep ok'):
+        return f'MISMATCH altered data bytes: {out}'
+    if cmd[0] in ('r', 'ram') and ':?' in out:
+        return f'MISMATCH a read returned bytes that were never written: {out}'
+    return None
+
+
+def bytes_features(lines):
+    f = set()
+    klen = 4
+    for l in lines:
+        t = l.split()
+        if t[0] == 'cfg':
+            for tok in t[1:]:
+                if tok.startswith('key='):
+                    klen = int(tok[4:])
+                    f.add(tok)
+                if tok.startswith('rt='):
+                    f.add(tok)
+        if t[0] == 'w':
+            ln = int(t[4])
+            head = 65 + klen + gen.meta_extra(t[3])
+            if ln == 0:
+                f.add('data len 0')
+            elif head + ln <= 4096:
+                f.add('single-pass record' + (' (exact boundary)' if head + ln == 4096 else ''))
+            elif head + ln <= 81920:
+                f.add('two-buffer record, in-place I/O' + (' (exact boundary)' if head + ln == 81920 else ''))
+            else:
+                f.add('two-buffer record, background I/O')
+            f.add('meta ' + ('none' if t[3] == '-' else 'empty' if t[3] == 'e' else 'one entry'))
+        if t[0] == 'flipsweep':
+            f.add('flipsweep')
+    return f
+
+
+PROPS['C05'] = dict(
+    gen=lambda rng, tier: gen.bytes_scenario(rng, size=tier),
+    p_cmds={'r', 'ram', 'flipsweep', 'w'},
+    oracle_cmds={'r', 'ram', 'states'}, py_oracle=oracle_c05,
+    count={'quick': 48, 'thorough': 400}, timeout=1800,
+    nontrivial=lambda lines: len({f for f in bytes_features(lines) if 'record' in f or 'len 0' in f}) >= 2,
+    features=bytes_features,
+    rule=("3-14 writes per scenario with value lengths from {0,1,2,17,300, single-pass boundary-1/0/+1, 5000, "
+          "background-I/O boundary-1/0/+1, 200k, 300k}, metadata none/empty/one entry of 1..200 bytes, key length "
+          "{1,4,8,33,128}; after every step reads and the byte image of every blob file (length + CRC-32C) are compared "
+          "with the L5 model; then 12 (quick) / 60 (thorough) alterations of stored data bytes (one bit, one byte, "
+          "2- and 4-byte bursts; index kept / removed / removed with data validation) are applied to copies and "
+          "everything is read back; non-trivial = at least two different record size classes"),
+    assumptions=['bursts that straddle more than 4 adjacent bytes are not generated (the theorem covers any 32 consecutive bits)',
+                 'metadata bytes are not checksummed by Pearl and the property does not claim them'],
+)
